@@ -52,10 +52,18 @@ def gen_view_world(r, hmax=7, wmax=7, occluders=False):
     return world
 
 
-def mk_obs_function(name, area, via_factory):
+def mk_obs_function(name, area, via_factory, vis=None):
     from gym_gridverse.envs import observation_functions as obs_fs
 
     a = area_of(area)
+    if vis is not None:
+        # the generic observation function with an explicitly built visibility function (with parameters)
+        from gym_gridverse.envs import visibility_functions as vis_fs
+
+        vf = vis_fs.factory(vis['name'], **{k: v for k, v in vis.items() if k != 'name'})
+        if via_factory:
+            return obs_fs.factory('from_visibility', area=a, visibility_function=vf)
+        return functools.partial(obs_fs.observation_function_registry['from_visibility'], area=a, visibility_function=vf)
     if via_factory:
         return obs_fs.factory(name, area=a)
     return functools.partial(obs_fs.observation_function_registry[name], area=a)
